@@ -21,6 +21,10 @@ Inductive texpr :=
 | XCallable (callee : texpr) (args : list texpr)
 | XBool (b : bool)
 | XString (s : str)
+| XInterp (s0 : str) (items : list (texpr * option str * str))
+    (* an interpolated string in the shape the parser builds it: the fixed text before the first
+       interpolation, then for each interpolation the expression, the format specifiers (raw text
+       beginning with the colon) and the fixed text after it; empty texts stand for absent parts *)
 | XIf (c t e : texpr)
 | XField (e : texpr) (name : str)
 | XHole
@@ -149,11 +153,28 @@ Fixpoint echo_tree (m : pmode) (e : texpr) {struct e} : sx :=
       end
   | XBool b => SBool b
   | XString s => SStr (c_quote :: escape_numbat_string s ++ [c_quote])
+  | XInterp s0 items =>
+      SInterp (c_quote :: escape_numbat_string s0 ++ [123])
+        ((fix go (l : list (texpr * option str * str)) : list (sx * option str * str) :=
+            match l with
+            | [] => []
+            | (a, f, s) :: r =>
+                (echo_tree Plain a, f,
+                 125 :: escape_numbat_string s ++ [match r with [] => c_quote | _ :: _ => 123 end]) :: go r
+            end) items)
   | XIf c t f => wrapm m (SIf (echo_tree Parens c) (echo_tree Parens t) (echo_tree Parens f))
   | XField a n => SField (echo_tree Parens a) n
   | XHole => SHole
   | XList es => SList (map (echo_tree Plain) es)
   | XStruct n fields => SStruct n (map (fun fe => (fst fe, echo_tree Plain (snd fe))) fields)
+  end.
+
+(* the items of an interpolated string, for a given echo of the embedded expressions *)
+Fixpoint echo_items (ec : texpr -> sx) (l : list (texpr * option str * str)) : list (sx * option str * str) :=
+  match l with
+  | [] => []
+  | (a, f, s) :: r =>
+      (ec a, f, 125 :: escape_numbat_string s ++ [match r with [] => c_quote | _ :: _ => 123 end]) :: echo_items ec r
   end.
 
 (* Expression::pretty_print, as tokens *)
@@ -183,6 +204,8 @@ Fixpoint printable_t (e : texpr) : bool :=
       end
   | XCall _ args => forallb printable_t args
   | XCallable callee args => printable_t callee && forallb printable_t args
+  | XInterp _ items =>
+      match items with [] => false | _ => forallb (fun it => printable_t (fst (fst it))) items end
   | XIf c t f => printable_t c && printable_t t && printable_t f
   | XList es => forallb printable_t es
   | XStruct _ fields => forallb (fun fe => printable_t (snd fe)) fields
@@ -211,6 +234,9 @@ Fixpoint erase (e : texpr) : expr :=
   | XCallable callee args => ECall (erase callee) (map erase args)
   | XBool b => EBool b
   | XString s => EString s
+  | XInterp s0 items =>
+      EInterp (filter nonempty_part
+                 (PFixed s0 :: flat_map (fun it => [PExpr (erase (fst (fst it))) (snd (fst it)); PFixed (snd it)]) items))
   | XIf c t f => EIf (erase c) (erase t) (erase f)
   | XField a n => EField (erase a) n
   | XHole => EHole
@@ -233,6 +259,7 @@ Fixpoint exact_t (e : texpr) : bool :=
   | XCallable callee args =>
       exact_t callee && forallb exact_t args
       && match callee with XIdent name => none_sugar (conversion_sugar name) | _ => true end
+  | XInterp _ items => forallb (fun it => exact_t (fst (fst it))) items
   | XIf c t f => exact_t c && exact_t t && exact_t f
   | XList es => forallb exact_t es
   | XStruct _ fields => forallb (fun fe => exact_t (snd fe)) fields
